@@ -270,6 +270,9 @@ fn do_stream(args: &BTreeMap<String, String>) -> i32 {
     let boundary: u128 = arg(args, "boundary-bytes", "536870912").parse().expect("--boundary-bytes");
     let seed: u64 = arg(args, "seed", "1").parse().expect("--seed");
     let with_ref = !args.contains_key("no-ref");
+    if args.contains_key("oneshot") {
+        return do_stream_oneshot(ty, name, boundary, seed);
+    }
     let b = TYPES[ty].block as u128;
     let mut rng = kit::rng::Rng::new(seed ^ kit::rng::fnv(name));
     let mut real = new_hash(ty);
@@ -348,5 +351,47 @@ fn do_stream(args: &BTreeMap<String, String>) -> i32 {
         1
     } else {
         0
+    }
+}
+
+/// The whole message (boundary + a little) in ONE update call versus the same bytes streamed in odd-sized
+/// pieces: a single call whose length alone exceeds a counter word must still count correctly.
+fn do_stream_oneshot(ty: usize, name: &str, boundary: u128, seed: u64) -> i32 {
+    use scen::hashes::{new_hash, TYPES};
+    let t0 = std::time::Instant::now();
+    let b = TYPES[ty].block;
+    let mut rng = kit::rng::Rng::new(seed ^ kit::rng::fnv(name) ^ 0x0e5);
+    let total = boundary as usize + b * rng.range(1, 3) as usize + rng.range(1, b as u64 - 1) as usize;
+    let mut msg = vec![0u8; total];
+    let tag = rng.next();
+    for (i, c) in msg.chunks_mut(8).enumerate() {
+        let v = (tag ^ (i as u64).wrapping_mul(0x9e37_79b9_7f4a_7c15)).to_le_bytes();
+        c.copy_from_slice(&v[..c.len()]);
+    }
+    let mut one = new_hash(ty);
+    one.update(&msg);
+    let d1 = one.finalize_box();
+    let d_digest = scen::hashes::oneshot(ty, &msg);
+    let mut many = new_hash(ty);
+    let piece = (1usize << 20) - 3;
+    for c in msg.chunks(piece) {
+        many.update(c);
+    }
+    let d2 = many.finalize_box();
+    let ok = d1 == d2 && d_digest == d2;
+    let out = J::obj()
+        .set("type", J::str(name))
+        .set("boundary_bytes", J::U(boundary))
+        .set("absorbed", J::U(total as u128))
+        .set("with_reference", J::Bool(false))
+        .set("checks", J::A(vec![J::obj().set("absorbed", J::U(total as u128)).set("digest_ok", J::Bool(ok)).set("mode", J::str("one update call / Digest::digest vs 1 MiB-3 pieces"))]))
+        .set("digest_mismatches", J::U(!ok as u128))
+        .set("counter_mismatches", J::U(0))
+        .set("wall_ms", J::U(t0.elapsed().as_millis()));
+    println!("{}", out.to_string());
+    if ok {
+        0
+    } else {
+        1
     }
 }
